@@ -10,3 +10,7 @@ pub mod silent;
 pub mod c17;
 #[cfg(feature = "c12")]
 pub mod c12;
+#[cfg(feature = "c18")]
+pub mod c18;
+#[cfg(feature = "c10")]
+pub mod c10;
